@@ -733,6 +733,12 @@ impl FromStr for PlainDate {
             .transpose()?
             .unwrap_or_default();
 
+        // The time is not part of the value, but it must still be a valid time of the grammar.
+        parse_record
+            .time
+            .map(IsoTime::from_time_record)
+            .transpose()?;
+
         // Assertion: PlainDate must exist on a DateTime parse.
         let date = parse_record.date.temporal_unwrap()?;
 
